@@ -91,32 +91,54 @@ func Solve(o *Obligation, cfg *SolverCfg, idx int) {
 		o.Status, o.Solver = "discharged", "simplifier"
 		return
 	}
-	// stage 0: abstract every non-linear product / division by a fresh integer constant (the same
-	// term gets the same constant).  Validity of the abstraction implies validity of the
-	// original, so `unsat` here is a sound discharge; anything else falls through.
+	// Cheap sound stages first (dropping hypotheses and abstracting non-linear sub-terms by fresh
+	// constants both only weaken the hypotheses, so `unsat` is a valid discharge):
+	//   qf+nl : quantified hypotheses dropped, non-linear terms abstracted
+	//   qf    : quantified hypotheses dropped
+	//   nl    : non-linear terms abstracted
 	if o.Expect == "unsat" {
+		type variant struct {
+			name string
+			text string
+		}
+		var vars []variant
 		renderMu.Lock()
-		all := append(append([]*Term{}, o.Hyps...), Not(o.Goal))
-		abs, n := abstractNonlinear(all)
-		var text0 string
-		if n > 0 {
-			sc0 := &Script{Asserts: abs, RecDefs: o.Recs}
-			text0 = sc0.Render()
+		var qf []*Term
+		nq := 0
+		for _, h := range o.Hyps {
+			if hasQuantifier(h) {
+				nq++
+			} else {
+				qf = append(qf, h)
+			}
+		}
+		neg := Not(o.Goal)
+		allH := append(append([]*Term{}, o.Hyps...), neg)
+		qfH := append(append([]*Term{}, qf...), neg)
+		if nq > 0 {
+			if abs, n := abstractNonlinear(qfH); n > 0 {
+				vars = append(vars, variant{"qf+nl-abstracted", (&Script{Asserts: abs, RecDefs: o.Recs}).Render()})
+			}
+			vars = append(vars, variant{"qf-hyps", (&Script{Asserts: qfH, RecDefs: o.Recs}).Render()})
+		}
+		if abs, n := abstractNonlinear(allH); n > 0 {
+			vars = append(vars, variant{"nl-abstracted", (&Script{Asserts: abs, RecDefs: o.Recs}).Render()})
 		}
 		renderMu.Unlock()
-		if text0 != "" {
-			f0 := filepath.Join(cfg.WorkDir, fmt.Sprintf("o%05d.lin.smt2", idx))
-			os.WriteFile(f0, []byte(text0), 0o644)
-			r := runSolver(context.Background(), "z3-new", f0, 2000, cfg.Seed)
+		for vi, v := range vars {
+			f0 := filepath.Join(cfg.WorkDir, fmt.Sprintf("o%05d.s%d.smt2", idx, vi))
+			os.WriteFile(f0, []byte(v.text), 0o644)
+			r := runSolver(context.Background(), "z3-new", f0, 2500, cfg.Seed)
 			if !cfg.Keep {
 				os.Remove(f0)
 			}
 			if r.status == "unsat" {
-				o.Status, o.Solver, o.TimeMS, o.SMTSize = "discharged", "z3-new(nl-abstracted)", r.ms, len(text0)
+				o.Status, o.Solver, o.TimeMS, o.SMTSize = "discharged", "z3-new("+v.name+")", r.ms, len(v.text)
 				if !cfg.AllAgree {
 					return
 				}
 				o.Status = ""
+				break
 			}
 		}
 	}
@@ -125,7 +147,7 @@ func Solve(o *Obligation, cfg *SolverCfg, idx int) {
 	if o.Expect == "unsat" {
 		asserts = append(asserts, Not(o.Goal))
 	}
-	sc := &Script{Asserts: asserts, Want: o.Inputs, RecDefs: o.Recs}
+	sc := &Script{Asserts: asserts, Want: o.Inputs, RecDefs: o.Recs, MBQI: o.Expect == "sat"}
 	text := sc.Render()
 	sc.ForCVC5 = true
 	text2 := sc.Render()
@@ -332,4 +354,14 @@ func abstractNonlinear(ts []*Term) ([]*Term, int) {
 		out[i] = rec(t)
 	}
 	return out, n
+}
+
+func hasQuantifier(t *Term) bool {
+	q := false
+	collect([]*Term{t}, func(x *Term) {
+		if x.Op == "forall" || x.Op == "exists" {
+			q = true
+		}
+	})
+	return q
 }
